@@ -108,6 +108,18 @@ func (s *SessionStore) setSessionCookie(rw http.ResponseWriter, req *http.Reques
 	if err != nil {
 		return err
 	}
+	// Delete session cookies the browser still holds that this save does not
+	// rewrite (the unsplit cookie or surplus parts of an earlier session of
+	// another size); left in place they would shadow or corrupt the new ones.
+	written := make(map[string]struct{}, len(cookies))
+	for _, c := range cookies {
+		written[c.Name] = struct{}{}
+	}
+	for _, c := range req.Cookies() {
+		if _, ok := written[c.Name]; !ok && isSessionCookieName(s.Cookie.Name, c.Name) {
+			http.SetCookie(rw, s.makeCookie(req, c.Name, "", time.Hour*-1))
+		}
+	}
 	for _, c := range cookies {
 		http.SetCookie(rw, c)
 	}
